@@ -96,7 +96,7 @@ def replace_node(root, old, new):
     return False
 
 
-NP_PURE = {'arange', 'abs', 'sqrt', 'exp', 'log', 'sum', 'mean', 'array', 'asarray', 'zeros', 'ones', 'finfo', 'prod', 'floor', 'ceil', 'log10', 'diff', 'unique', 'min', 'max',
+NP_PURE = {'bincount', 'vstack', 'hstack', 'identity', 'eye', 'column_stack', 'cumsum', 'argsort', 'sort', 'where', 'real', 'imag', 'conj', 'tile', 'repeat', 'outer', 'inner', 'trace', 'diag', 'std', 'var', 'median', 'round', 'sign', 'isnan', 'isfinite', 'nan_to_num', 'zeros_like', 'ones_like', 'full', 'atleast_1d', 'atleast_2d', 'squeeze', 'expand_dims', 'stack', 'arange', 'abs', 'sqrt', 'exp', 'log', 'sum', 'mean', 'array', 'asarray', 'zeros', 'ones', 'finfo', 'prod', 'floor', 'ceil', 'log10', 'diff', 'unique', 'min', 'max',
            'all', 'any', 'isclose', 'allclose', 'shape', 'ndim', 'size', 'reshape', 'ravel', 'concatenate', 'vstack', 'hstack', 'transpose', 'dot', 'matmul', 'linspace', 'empty', 'average'}
 
 
@@ -1873,6 +1873,7 @@ def rw_try_tail_in(func, k):
 
 class Ctx:
     whole_func = None
+    window_outside = []
     helpers = {}
     nested_sigs = {}
     ref_counter = Counter()
@@ -2472,6 +2473,8 @@ KNOWN_SIGNATURES = {
     'squad': ['func', 'a', 'b'], 'encode': ['encoding'], 'ODR': ['data', 'model', 'beta0'], 'RealData': ['x', 'y', 'sx', 'sy'], 'is_zero_within_error': ['sigma'],
     'lstsq': ['a', 'b'], 'reshape': ['shape'], 'hankel': ['c', 'r'], 'minimize': ['fun', 'x0'], 'least_squares': ['fun', 'x0'], 'zeros': ['shape', 'dtype'], 'ones': ['shape', 'dtype'],
     'empty': ['shape', 'dtype'], 'array': ['object', 'dtype'], 'vstack': ['tup'], 'bincount': ['x', 'weights', 'minlength'], 'flip': ['m', 'axis'], 'sum': ['a', 'axis'], 'mean': ['a', 'axis'],
+    'savetxt': ['fname', 'X', 'fmt'], 'loadtxt': ['fname', 'dtype'], 'identity': ['n', 'dtype'], 'eye': ['N', 'M', 'k'], 'dot': ['a', 'b'], 'average': ['a', 'axis', 'weights'],
+    'std': ['a', 'axis'], 'var': ['a', 'axis'], 'arange': ['start', 'stop', 'step'], 'concatenate': ['arrays', 'axis'], 'cumsum': ['a', 'axis'], 'diff': ['a', 'n', 'axis'],
 }
 PACKAGE_SIGNATURES = {}
 
@@ -2911,6 +2914,39 @@ def rw_list_call_to_comp(func, k):
     return True
 
 
+def rw_inline_temp(func, k):
+    """t = E ; S[t]     ->     S[E]        (t bound once, read once, in the statement that follows; E pure)"""
+    sites = []
+    for owner, fld, blk in blocks_of(func):
+        for i in range(len(blk) - 1):
+            a, b = blk[i], blk[i + 1]
+            if isinstance(a, ast.Assign) and len(a.targets) == 1 and isinstance(a.targets[0], ast.Name) and _is_pure(a.value) and not isinstance(b, FuncDef + (ast.For, ast.While, ast.If, ast.Try, ast.With)):
+                t = a.targets[0].id
+                occ = [n for n in ast.walk(func) if isinstance(n, ast.Name) and n.id == t]
+                if any(isinstance(n, ast.Name) and n.id == t for st_ in getattr(Ctx, 'window_outside', []) for n in ast.walk(st_)):
+                    continue
+                uses = [n for n in ast.walk(b) if isinstance(n, ast.Name) and n.id == t and isinstance(n.ctx, ast.Load)]
+                if len(occ) == 2 and len(uses) == 1 and not any(isinstance(n, (ast.Lambda, ast.ListComp, ast.GeneratorExp, ast.DictComp, ast.SetComp)) and any(u is uses[0] for u in ast.walk(n)) for n in ast.walk(b)):
+                    sites.append((blk, i, uses[0]))
+    if k >= len(sites):
+        return False
+    blk, i, use = sites[k]
+    replace_node(blk[i + 1], use, blk[i].value)
+    del blk[i]
+    return True
+
+
+def rw_np_synonym(func, k):
+    """np.identity(n)  <->  np.eye(n)"""
+    sites = [c for c in ast.walk(func) if isinstance(c, ast.Call) and isinstance(c.func, ast.Attribute) and isinstance(c.func.value, ast.Name) and c.func.value.id in ('np', 'numpy', 'anp')
+             and c.func.attr in ('identity', 'eye') and len(c.args) == 1 and not c.keywords]
+    if k >= len(sites):
+        return False
+    c = sites[k]
+    c.func.attr = 'eye' if c.func.attr == 'identity' else 'identity'
+    return True
+
+
 def rw_inline_helper(func, k):
     """a statement that calls a helper the reference does not contain (after other rewrites made it a plain statement)"""
     helpers = Ctx.helpers
@@ -2952,7 +2988,7 @@ def rw_inline_helper(func, k):
     return True
 
 
-GUIDED = [rw_zip_to_index, rw_inline_helper, rw_extract_temp, rw_flatten_comp_filter, rw_first_of_concat, rw_split_tuple_assign, rw_augcomp_to_loop, rw_len_zero, rw_bool_ifexp, rw_singleton_comp, rw_ndenumerate_value, rw_flat_to_ndenumerate, rw_slice_zero, rw_flip_compare, rw_keyword_to_positional, rw_fstring_to_percent, rw_np_all_any, rw_range_min_guard, rw_membership_container, rw_drop_default_arg, rw_unpack_first, rw_use_alias, rw_ravel_flatten, rw_last_appended, rw_pass_branch, rw_dictcomp_to_loop, rw_none_flag, rw_argcomp_to_loop, rw_hoist_return, rw_get_none, rw_else_after_exit_wrap, rw_else_after_exit_unwrap, rw_comp_to_loop, rw_loop_to_comp, rw_not_compare, rw_demorgan, rw_swap_branches, rw_merge_nested_if, rw_split_and_if, rw_guard_to_swapped_else, rw_swapped_else_to_guard, rw_drop_tail_return, rw_add_tail_return, rw_element_to_index_loop, rw_fuse_loops, rw_late_publication, rw_drop_tail_continue, rw_items_loop, rw_filter_loop, rw_loop_to_update, rw_is_false, rw_hoist_common_tail, rw_sink_common_tail, rw_try_tail_out, rw_try_tail_in, rw_genexp_loop, rw_guarded_subscript_get, rw_update_to_loop, rw_append_augadd, rw_list_call_to_comp, rw_last_is_appended, rw_move_append, rw_append_comp_to_loop, rw_split_append_concat, rw_enumerate_to_index, rw_subscripted_literal, rw_extend_to_loop, rw_comp_over_collected, rw_tail_pass_to_continue, rw_split_or_exit, rw_merge_exit_ifs, rw_unroll_const_loop, rw_drop_noop_pass, rw_ifexp_to_if, rw_if_to_ifexp, rw_bool_to_if, rw_kwargs_default, rw_trailing_return, rw_enumerate, rw_return_temp]
+GUIDED = [rw_zip_to_index, rw_inline_helper, rw_extract_temp, rw_flatten_comp_filter, rw_first_of_concat, rw_split_tuple_assign, rw_augcomp_to_loop, rw_len_zero, rw_bool_ifexp, rw_singleton_comp, rw_ndenumerate_value, rw_flat_to_ndenumerate, rw_slice_zero, rw_flip_compare, rw_keyword_to_positional, rw_fstring_to_percent, rw_np_all_any, rw_range_min_guard, rw_membership_container, rw_drop_default_arg, rw_unpack_first, rw_use_alias, rw_ravel_flatten, rw_last_appended, rw_pass_branch, rw_dictcomp_to_loop, rw_none_flag, rw_argcomp_to_loop, rw_hoist_return, rw_get_none, rw_else_after_exit_wrap, rw_else_after_exit_unwrap, rw_comp_to_loop, rw_loop_to_comp, rw_not_compare, rw_demorgan, rw_swap_branches, rw_merge_nested_if, rw_split_and_if, rw_guard_to_swapped_else, rw_swapped_else_to_guard, rw_drop_tail_return, rw_add_tail_return, rw_element_to_index_loop, rw_fuse_loops, rw_late_publication, rw_drop_tail_continue, rw_items_loop, rw_filter_loop, rw_loop_to_update, rw_is_false, rw_hoist_common_tail, rw_sink_common_tail, rw_try_tail_out, rw_try_tail_in, rw_genexp_loop, rw_guarded_subscript_get, rw_update_to_loop, rw_np_synonym, rw_append_augadd, rw_list_call_to_comp, rw_last_is_appended, rw_move_append, rw_append_comp_to_loop, rw_split_append_concat, rw_enumerate_to_index, rw_subscripted_literal, rw_extend_to_loop, rw_comp_over_collected, rw_tail_pass_to_continue, rw_split_or_exit, rw_merge_exit_ifs, rw_unroll_const_loop, rw_drop_noop_pass, rw_ifexp_to_if, rw_if_to_ifexp, rw_bool_to_if, rw_kwargs_default, rw_trailing_return, rw_enumerate, rw_return_temp]
 
 
 def _clone(node):
@@ -2963,7 +2999,7 @@ def _clone(node):
         return copy.deepcopy(node)
 
 
-ENABLERS = {rw_subscripted_literal: [rw_extract_temp], rw_list_call_to_comp: [rw_comp_to_loop], rw_zip_to_index: [rw_extract_temp], rw_comp_to_loop: [rw_enumerate_to_index, rw_zip_to_index, rw_split_append_concat, rw_append_comp_to_loop]}
+ENABLERS = {rw_subscripted_literal: [rw_extract_temp], rw_loop_to_comp: [rw_inline_temp], rw_keyword_to_positional: [rw_extract_temp, rw_keyword_to_positional], rw_list_call_to_comp: [rw_comp_to_loop], rw_zip_to_index: [rw_extract_temp], rw_comp_to_loop: [rw_enumerate_to_index, rw_zip_to_index, rw_split_append_concat, rw_append_comp_to_loop]}
 REMOVALS = (rw_drop_tail_return, rw_drop_tail_continue, rw_drop_noop_pass, rw_fuse_loops)
 
 
@@ -3062,6 +3098,7 @@ def guided(func, score, max_rounds=30, budget=2500, dirty=None):
     """hill climbing on the reference score, restricted to the top-level statements of the function that differ from the
     reference (plus their neighbours): per rewrite the best improving site is applied; bounded by a fixed number of candidate
     evaluations (deterministic); returns the names of the rewrites applied"""
+    Ctx.window_outside = []
     if not isinstance(func, FuncDef) or dirty is None:
         return _search(func, score, max_rounds, budget)
     idx = sorted(dirty(func))
@@ -3095,6 +3132,7 @@ def guided(func, score, max_rounds=30, budget=2500, dirty=None):
                     if isinstance(x_, ast.Assign):
                         outside[Ctx.line_hash(x_, nm_, func)] += 1
             shell._outside_have = dict(outside)
+        Ctx.window_outside = func.body[:a] + func.body[b:]
         try:
             sc = score.window(func, a, b) if hasattr(score, 'window') else score
         except Exception:
